@@ -61,6 +61,31 @@ class Grammar(object):
     pass
 
 
+def nsdict_prefix(prefix_of, uri):
+    return prefix_of.get(uri, uri)
+
+
+def duplicate_keys(path):
+    """keys that occur twice in the dict displays of the four tables (source level; the import keeps the last)"""
+    import ast
+    out = []
+    try:
+        with open(path, encoding='utf-8') as f:
+            tree = ast.parse(f.read())
+    except Exception:
+        return out
+    for node in tree.body:
+        if isinstance(node, ast.Assign) and isinstance(node.value, ast.Dict) and len(node.targets) == 1 and \
+                getattr(node.targets[0], 'id', None) in ('allowed_children', 'required_attributes', 'allowed_attributes'):
+            seen = set()
+            for k in node.value.keys:
+                d = ast.dump(k) if k is not None else None
+                if d in seen:
+                    out.append((node.targets[0].id, ast.unparse(k)))
+                seen.add(d)
+    return out
+
+
 def kids(e):
     return [c for c in e.childNodes if c.nodeType == 1]
 
@@ -191,22 +216,72 @@ def translate(repo):
     if not os.path.abspath(g.__file__).startswith(os.path.abspath(repo)):
         raise TranslateError('odf.grammar was imported from %s, not from %s' % (g.__file__, repo))
 
+    # The tables are dumped as the membership tests of element.py see them.  A row of unexpected shape (a string or a
+    # bare (ns, name) pair where a tuple of pairs belongs, an entry that is no pair of strings, a key that is no pair, None
+    # where a container belongs) is recorded in G.malformed - harness/c06.py turns that into a broken obligation - and
+    # dumped with its well-formed entries only, so that the Lean tables still build and the sweep of the real API against
+    # the schema runs for ALL rows; what the real API does with the odd row then shows as a concrete call.
+    # Lists, sets and frozensets of pairs are containers like tuples (sets are dumped sorted: membership only).
+    G.malformed = []
+    names = {}
+    from odf import namespaces as _ns
+    for _k in dir(_ns):
+        if _k.endswith('NS') and isinstance(getattr(_ns, _k), str):
+            names.setdefault(getattr(_ns, _k), nsdict_prefix(prefix_of, getattr(_ns, _k)))
+
+    def is_pair(x):
+        return isinstance(x, (tuple, list)) and len(x) == 2 and all(isinstance(y, str) for y in x)
+
+    def show(k):
+        return ('%s:%s' % (prefix_of.get(k[0], k[0]), k[1])) if is_pair(k) else repr(k)[:60]
+
+    def pairs(v, table, key, none_ok):
+        """well-formed entries of a container value"""
+        if v is None:
+            if not none_ok:
+                G.malformed.append((table, show(key), 'None where a container of (namespace, name) pairs belongs'))
+            return None if none_ok else []
+        if isinstance(v, (str, bytes)) or not hasattr(v, '__iter__'):
+            G.malformed.append((table, show(key), 'value is %s, not a container of pairs' % type(v).__name__))
+            return []
+        items = sorted(v, key=repr) if isinstance(v, (set, frozenset)) else list(v)
+        good = [tuple(x) for x in items if is_pair(x)]
+        if len(good) != len(items):
+            bad = [x for x in items if not is_pair(x)]
+            G.malformed.append((table, show(key), '%d entr%s no (namespace, name) pair, e.g. %r%s' % (
+                len(bad), 'y is' if len(bad) == 1 else 'ies are', bad[0],
+                ' - the row is probably a bare pair: a one-element tuple needs a trailing comma' if all(isinstance(x, str) for x in items) else '')))
+        return good
+
+    def rows_of(d, table, none_ok):
+        out = {}
+        if not isinstance(d, dict):
+            G.malformed.append((table, '*', 'the table is %s, not a dict' % type(d).__name__))
+            return out
+        for k, v in d.items():
+            if not is_pair(k):
+                G.malformed.append((table, show(k), 'key is no (namespace, name) pair'))
+                continue
+            out[tuple(k)] = pairs(v, table, k, none_ok)
+        return out
+
+    T_children = rows_of(getattr(g, 'allowed_children', None), 'allowed_children', True)
+    T_attrs = rows_of(getattr(g, 'allowed_attributes', None), 'allowed_attributes', True)
+    T_required = rows_of(getattr(g, 'required_attributes', None), 'required_attributes', False)
+    T_text = pairs(getattr(g, 'allows_text', None), 'allows_text', '*', False)
+    # a key written twice in the dict display: the later row silently wins (noted; the dump is what the import gives)
+    G.duplicate_keys = duplicate_keys(g.__file__)
+
     def opt_list(v, table):
         if v is None:
             return 'none'
-        return 'some [%s]' % ', '.join(str(table(tuple(x))) for x in v)
+        return 'some [%s]' % ', '.join(str(table(x)) for x in v)
 
-    children_rows = [(elems(tuple(k)), opt_list(v, elems)) for k, v in g.allowed_children.items()]
-    text_rows = [elems(tuple(k)) for k in g.allows_text]
-    required_rows = [(elems(tuple(k)), '[%s]' % ', '.join(str(attrs(tuple(x))) for x in v))
-                     for k, v in g.required_attributes.items()]
-    attr_rows = [(elems(tuple(k)), opt_list(v, attrs)) for k, v in g.allowed_attributes.items()]
-    G.py_tables = {
-        'allowed_children': dict((tuple(k), None if v is None else [tuple(x) for x in v]) for k, v in g.allowed_children.items()),
-        'allows_text': [tuple(k) for k in g.allows_text],
-        'required_attributes': dict((tuple(k), [tuple(x) for x in v]) for k, v in g.required_attributes.items()),
-        'allowed_attributes': dict((tuple(k), None if v is None else [tuple(x) for x in v]) for k, v in g.allowed_attributes.items()),
-    }
+    children_rows = [(elems(k), opt_list(v, elems)) for k, v in T_children.items()]
+    text_rows = [elems(k) for k in T_text]
+    required_rows = [(elems(k), '[%s]' % ', '.join(str(attrs(x)) for x in v)) for k, v in T_required.items()]
+    attr_rows = [(elems(k), opt_list(v, attrs)) for k, v in T_attrs.items()]
+    G.py_tables = {'allowed_children': T_children, 'allows_text': T_text, 'required_attributes': T_required, 'allowed_attributes': T_attrs}
 
     # ------------------------------------------------------------------ (c) factories
     from odf import element as odf_element
